@@ -1509,7 +1509,7 @@ func UniqueInputFieldNamesRule(context *ValidationContext) *ValidationRuleInstan
 						}
 
 					}
-					return visitor.ActionSkip, nil
+					return visitor.ActionNoChange, nil
 				},
 			},
 		},
